@@ -68,12 +68,23 @@ def execute(case):
     total = sum(e["d"] for e in case["cyc"])
     warm = _mk(case)
     light = TrafficLight(1, np.array([0.0, 0.0]), _mk(case))
+    # "TrafficLight.get_state_at_time_step agrees with its cycle" - whatever the light's own active flag says and
+    # however the cycle got there
+    light_off = TrafficLight(2, np.array([0.0, 0.0]), _mk(case), active=False)
+    light_late = TrafficLight(3, np.array([0.0, 0.0]))
+    light_late.traffic_light_cycle = _mk(case)
+    light_switched = TrafficLight(4, np.array([0.0, 0.0]), _mk(case))
+    light_switched.active = False
     ts = list(range(case.get("tmin", 0), case["horizon"] + 1))
     for t in ts:
         cold = _mk(case)                      # fresh object: cache never filled
         ev.append(dict(base, op="cycle_state", t=t, res=_q(cold, t), sig="cold"))
         ev.append(dict(base, op="cycle_state", t=t, res=_q(warm, t), sig="warm"))
         ev.append(dict(base, op="light_state", t=t, res=_q(light, t), sig="light"))
+        if t % 3 == 0:
+            ev.append(dict(base, op="light_state", t=t, res=_q(light_off, t), sig="light/constructed-inactive"))
+            ev.append(dict(base, op="light_state", t=t, res=_q(light_late, t), sig="light/cycle-set-later"))
+            ev.append(dict(base, op="light_state", t=t, res=_q(light_switched, t), sig="light/switched-off"))
     # periodicity far away from the origin (many periods later), decided on the code's own answers
     for t in (ts[0], ts[len(ts) // 2]):
         k = 1000
